@@ -26,9 +26,9 @@ if $applies; then
     fi
   fi
   mkdir -p "$crate/tests"; cp "$out/demo/adv_$id.rs" "$crate/tests/adv_$id.rs"
-  cargo test -p "$crate" --test "adv_$id" --offline >"$out/demo_with_patch.log" 2>&1; demo_with="exit $? : $(grep -E '^test result' "$out/demo_with_patch.log" | tail -1)"
+  cargo test -p "$crate" --test "adv_$id" --offline ${CONFIRM_TEST_ARGS:-} >"$out/demo_with_patch.log" 2>&1; demo_with="exit $? : $(grep -E '^test result' "$out/demo_with_patch.log" | tail -1)"
   git apply -R "$out/patch.diff"
-  cargo test -p "$crate" --test "adv_$id" --offline >"$out/demo_without_patch.log" 2>&1; demo_without="exit $? : $(grep -E '^test result' "$out/demo_without_patch.log" | tail -1)"
+  cargo test -p "$crate" --test "adv_$id" --offline ${CONFIRM_TEST_ARGS:-} >"$out/demo_without_patch.log" 2>&1; demo_without="exit $? : $(grep -E '^test result' "$out/demo_without_patch.log" | tail -1)"
 fi
 cd /verif
 checks=""
